@@ -13,7 +13,7 @@ DEFAULTS = dict(methodPut='PUT', methodPost='POST', methodDelete='DELETE', delet
                 contentTypeLatest='text/plain; version=0.0.4; charset=utf-8', headerName='Content-Type',
                 urlFmt=['', '/metrics/', '/', ''], pairFmt=['/', '/', ''], jobLit='job', base64Suffix='@base64',
                 emptyMarker='=', slashLit='/', httpPrefix='http://', allowedSchemes=['http', 'https'], rstripChars='/',
-                sortsGroupingKey=True)
+                sortsGroupingKey=True, spaceAsPlus=False)
 
 
 def _emit(ok, v, why=''):
@@ -28,6 +28,8 @@ def _emit(ok, v, why=''):
     out += 'def pairFmt : List (List Char) := %s\n' % strlist(v['pairFmt'])
     out += 'def allowedSchemes : List (List Char) := %s\n' % strlist(v['allowedSchemes'])
     out += 'def sortsGroupingKey : Bool := %s\n' % ('true' if v['sortsGroupingKey'] else 'false')
+    # which urllib encoder the plain branch uses: quote_plus(v) (space -> '+') or quote(v, safe='') (space -> %20)
+    out += 'def spaceAsPlus : Bool := %s\n' % ('true' if v['spaceAsPlus'] else 'false')
     return out + footer(TARGET)
 
 
@@ -216,12 +218,20 @@ def generate(repo):
         if ast.unparse(e[1]) != "base64.urlsafe_b64encode(v.encode('utf-8')).decode('utf-8')":
             raise Fail('base64 branch changed: %s' % ast.unparse(e[1]))
         e = ret_pair(n2.orelse)
-        if ast.unparse(e[0]) != 'k' or ast.unparse(e[1]) != 'quote_plus(v)':
+        plain = ast.unparse(e[1])
+        if ast.unparse(e[0]) != 'k' or plain not in ('quote_plus(v)', "quote(v, safe='')"):
             raise Fail('plain branch changed: %s' % ast.unparse(n2.orelse[0]))
-        imports = [ast.unparse(n) for n in tree.body if isinstance(n, (ast.Import, ast.ImportFrom))]
-        if 'import base64' not in imports or not any(
-                i.startswith('from urllib.parse import') and 'quote_plus' in i and ' as ' not in i for i in imports):
-            raise Fail('base64 / urllib.parse.quote_plus imports changed')
+        v['spaceAsPlus'] = plain == 'quote_plus(v)'
+        used = 'quote_plus' if v['spaceAsPlus'] else 'quote'
+        imports = [n for n in tree.body if isinstance(n, (ast.Import, ast.ImportFrom))]
+        if not any(isinstance(n, ast.Import) and any(a.name == 'base64' and a.asname is None for a in n.names) for n in imports):
+            raise Fail('import base64 changed')
+        if not any(isinstance(n, ast.ImportFrom) and n.module == 'urllib.parse' and n.level == 0
+                   and any(a.name == used and a.asname is None for a in n.names) for n in imports):
+            raise Fail('urllib.parse.%s is not imported under its own name' % used)
+        for n in ast.walk(tree):      # the name must not be rebound at module level
+            if isinstance(n, (ast.FunctionDef, ast.ClassDef)) and n.name == used:
+                raise Fail('%s is redefined in the module' % used)
         return _emit(True, v)
     except Fail as e:
         return _emit(False, v, str(e))
